@@ -296,10 +296,17 @@ fn encoder(cfg: &Cfg, rep: &mut Report) {
     rep.begin_history(99_000);
     let check = |rep: &mut Report, src: &[u8]| {
         let want = b64url(src);
-        let mut dst = vec![0u8; want.len()];
-        base64_url_encode(&mut dst, src);
+        // 8 sentinel bytes behind the exact length: an encoder that emits padding or more characters
+        // shows up as an overwritten sentinel, one that indexes out of bounds as a caught panic
+        let mut dst = vec![0xAAu8; want.len() + 8];
+        let r = std::panic::catch_unwind(std::panic::AssertUnwindSafe(|| base64_url_encode(&mut dst, src)));
         rep.evaluations += 1;
-        rep.check("encoder", dst == want, "C18/encoder/base64_url_encode/differs-from-rfc4648", || format!("input {src:?}: got {:?}, RFC 4648 §5 gives {:?}", String::from_utf8_lossy(&dst), String::from_utf8_lossy(&want)));
+        if r.is_err() {
+            rep.check("encoder", false, "C18/encoder/base64_url_encode/panicked", || format!("input {src:?}: {}", crate::last_panic()));
+            return;
+        }
+        let (head, tail) = dst.split_at(want.len());
+        rep.check("encoder", head == &want[..] && tail.iter().all(|b| *b == 0xAA), "C18/encoder/base64_url_encode/differs-from-rfc4648", || format!("input {src:?}: got {:?} (bytes behind the expected length: {tail:?}), RFC 4648 §5 gives {:?}", String::from_utf8_lossy(head), String::from_utf8_lossy(&want)));
     };
     // exhaustive for lengths 0..=2, split over shards by first byte
     if cfg.shard == 0 {
